@@ -17,8 +17,8 @@ import (
 	"reflect"
 	"runtime"
 	"sort"
-	"strings"
 	"strconv"
+	"strings"
 	"sync"
 	"sync/atomic"
 	"time"
@@ -622,6 +622,81 @@ func main() {
 			}
 		}
 		f.Close()
+	case "bigcopy":
+		// Copy / DeepCopy are ONE read of the scope (AnkoEnvConc: a single critical section under the read lock), however many symbols it holds: a writer keeps
+		// storing p then q (so q <= p <= q + 1 at every instant) and s[i] then s[i+1] for every filler pair, copiers check that relation in each snapshot.
+		// A snapshot stitched together from several instants breaks it.  Prints SNAPSHOT-TORN and exits 3.
+		rounds, _ := strconv.Atoi(os.Args[2])
+		for _, nsym := range []int{3, 70, 200, 1000} {
+			root := env.NewEnv()
+			e := root.NewEnv()
+			for i := 0; i < nsym; i++ {
+				e.Define(fmt.Sprintf("s%04d", i), int64(0))
+			}
+			e.Define("p", int64(0))
+			e.Define("q", int64(0))
+			root.Define("rp", int64(0))
+			root.Define("rq", int64(0))
+			var stop int32
+			var wg sync.WaitGroup
+			wg.Add(1)
+			go func() {
+				defer wg.Done()
+				for v := int64(1); atomic.LoadInt32(&stop) == 0; v++ {
+					e.Set("p", v)
+					e.Set("q", v)
+					root.Set("rp", v)
+					root.Set("rq", v)
+					a, b := fmt.Sprintf("s%04d", int(v)%nsym), fmt.Sprintf("s%04d", (int(v)*7+nsym/2)%nsym)
+					if a != b {
+						e.Set(a, v)
+						e.Set(b, v)
+					}
+				}
+			}()
+			torn := ""
+			var mu sync.Mutex
+			for g := 0; g < 3; g++ {
+				wg.Add(1)
+				go func(g int) {
+					defer wg.Done()
+					for r := 0; r < rounds && atomic.LoadInt32(&stop) == 0; r++ {
+						var c *env.Env
+						if g == 2 {
+							c = e.DeepCopy()
+						} else {
+							c = e.Copy()
+						}
+						pv, _ := c.Get("p")
+						qv, _ := c.Get("q")
+						p, q := pv.(int64), qv.(int64)
+						if !(q <= p && p <= q+1) {
+							mu.Lock()
+							torn = fmt.Sprintf("a copy of a scope with %d symbols holds p=%d q=%d (p is stored before q: q <= p <= q+1 at every instant)", nsym+2, p, q)
+							mu.Unlock()
+							atomic.StoreInt32(&stop, 1)
+						}
+						if g == 2 {
+							rpv, _ := c.Get("rp")
+							rqv, _ := c.Get("rq")
+							if rp, rq := rpv.(int64), rqv.(int64); !(rq <= rp && rp <= rq+1) {
+								mu.Lock()
+								torn = fmt.Sprintf("a deep copy holds rp=%d rq=%d of the parent scope (rp is stored before rq)", rp, rq)
+								mu.Unlock()
+								atomic.StoreInt32(&stop, 1)
+							}
+						}
+					}
+				}(g)
+			}
+			time.Sleep(time.Duration(rounds/20+5) * time.Millisecond)
+			atomic.StoreInt32(&stop, 1)
+			wg.Wait()
+			if torn != "" {
+				fmt.Println("SNAPSHOT-TORN", torn)
+				os.Exit(3)
+			}
+		}
 	case "chain3":
 		// race-detector stress beyond the two-scope model: a chain root <- mid <- leaf where every scope is read and written concurrently
 		// through every operation that walks the chain (each scope's table must only ever be touched under that scope's own lock)
